@@ -70,6 +70,18 @@ fn cmp_band_x(x: f64, thr: f64, exact: bool) -> u8 {
     }
     cmp_band(x, thr)
 }
+/// radius membership: 1 strictly inside, 0 strictly outside, 2 on the boundary (exactly equal on a
+/// lattice, inside the tie band on a real space)
+fn in_radius(d: f64, rad: f64, exact: bool) -> u8 {
+    if exact {
+        return if d < rad { 1 } else if d > rad { 0 } else { 2 };
+    }
+    match cmp_band(d, rad) {
+        0 => 1,
+        1 => 0,
+        _ => 2,
+    }
+}
 /// near/far decision of an extension: 0 = within one step (d <= maxd), 1 = beyond, 2 = in the band
 fn far_of(d: f64, maxd: f64, exact: bool) -> u8 {
     if exact {
@@ -251,13 +263,23 @@ impl<'a, S: Clone + Bits> Annot<'a, S> {
                 let near = if !star {
                     par
                 } else {
+                    // ties among nearest nodes: any of them may have been used; among those that explain
+                    // `new` equally well prefer one whose motion is not certainly blocked
                     let mut best = argmin.first().cloned().unwrap_or(0);
-                    let mut bestd = f64::INFINITY;
+                    let mut bestkey: Option<(f64, bool)> = None;
                     for m in &argmin {
                         let (_, s) = steer(*m);
                         let dd = g.dist(&s, &new);
-                        if dd < bestd {
-                            bestd = dd;
+                        let blocked = g.oracle(&tree[*m].s, &new) == BLOCKED;
+                        let better = match bestkey {
+                            None => true,
+                            Some((bd, bb)) => {
+                                let eps = 1e-12 * bd.abs().max(dd.abs()).max(1e-300);
+                                dd < bd - eps || ((dd - bd).abs() <= eps && bb && !blocked)
+                            }
+                        };
+                        if better {
+                            bestkey = Some((dd, blocked));
                             best = *m;
                         }
                     }
@@ -311,11 +333,7 @@ impl<'a, S: Clone + Bits> Annot<'a, S> {
         let dnew: Vec<f64> = pre.iter().map(|nd| g.dist(&newn.s, &nd.s)).collect();
         let inr: Vec<u8> = dnew
             .iter()
-            .map(|d| match cmp_band_x(*d, rad, exact) {
-                0 => 1,
-                1 => 0,
-                _ => 2,
-            })
+            .map(|d| in_radius(*d, rad, exact))
             .collect();
         let ccf: Vec<f64> = (0..n).map(|i| pre[i].c + dnew[i]).collect();
         let cc: Vec<i64> = ccf.iter().map(|c| self.u(*c)).collect();
@@ -705,11 +723,7 @@ impl<'a, S: Clone + Bits> Annot<'a, S> {
                 for i in 0..me {
                     let other = &road[i].0;
                     let d = self.g.dist(&q, other);
-                    let inr = match cmp_band_x(d, self.params.radius, self.g.mode() == "lattice") {
-                        0 => 1,
-                        1 => 0,
-                        _ => 2,
-                    };
+                    let inr = in_radius(d, self.params.radius, self.g.mode() == "lattice");
                     let linked = edges.contains(&i);
                     let orc = if inr != 0 || linked { self.g.oracle(&q, other) } else { UNKNOWN };
                     let (cov, len) = if linked { self.coverage(&q, other) } else { (vec![], 0) };
@@ -747,11 +761,7 @@ impl<'a, S: Clone + Bits> Annot<'a, S> {
             if let Some(st) = problems[i].start.clone() {
                 for (m, _) in &road {
                     let d = self.g.dist(&st, m);
-                    let inr = match cmp_band_x(d, self.params.radius, self.g.mode() == "lattice") {
-                        0 => 1,
-                        1 => 0,
-                        _ => 2,
-                    };
+                    let inr = in_radius(d, self.params.radius, self.g.mode() == "lattice");
                     let orc = if inr != 0 { self.g.oracle(&st, m) } else { UNKNOWN };
                     let (cov, len) = if inr != 0 { self.coverage(&st, m) } else { (vec![], 0) };
                     sc.push(json!({"inr": inr, "orc": orc, "cov": cov, "len": len, "d": self.u(d)}));
